@@ -56,6 +56,7 @@ type world struct {
 	sendEnabled              map[string]bool // by denom (absent = enabled)
 	vest                     vestModel
 	crashNext                int
+	voteMode                 int
 	lastSupply               sdk.Coins
 	suicided                 map[string]bool
 	pairCache                map[string]aggregatetypes.TokenPair
